@@ -245,6 +245,9 @@ var racePhase = map[string][]string{
 	"C20": {"C20/fallback/", "C20/sno/g2x2"},
 	"C09": {"C09/tracer/s2x1", "C09/tracer/s2x2", "C09/relay"},
 	"C13": {"C13/unit/duration", "C13/unit/R2/", "C13/unit/R-end"},
+	// two or three tokens evaluating the same conditions: state shared between evaluations
+	// (a cached program, a reused VM) is touched by plain statements of two flows
+	"C04": {"C04/xor/k1/default@0/tokens2/", "C04/xor/k1/default@none/tokens2/", "C04/xor/k2/default@1/tokens2/", "C04/xor/k1/default@0/tokens3/expr"},
 }
 
 func runCheck(prop, tier, only string, budgetOverride time.Duration) int {
